@@ -686,10 +686,14 @@ func (e *Env) Dial(ctx context.Context, network, addr string) (c net.Conn, err e
 
 func (c *Conn) Read(p []byte) (n int, err error) {
 	seam.Enter(func() { n, err = c.read(p) })
+	if n > 0 {
+		seam.WriteBuf(p[:n])
+	}
 	return
 }
 
 func (c *Conn) Write(p []byte) (n int, err error) {
+	seam.ReadBuf(p)
 	seam.Enter(func() { n, err = c.write(p) })
 	return
 }
